@@ -48,6 +48,16 @@ for d in sorted(glob.glob(os.path.join(V, 'seeded', '*'))):
     r = json.load(open(rp)) if os.path.exists(rp) else {}
     rows.append(f"| `{os.path.basename(d)}` | {m.get('property','')} | {esc(m.get('summary',''))} | {esc(r.get('caught_by','(not run)'))} | {esc(r.get('note',''))} |")
 if rows:
+    total = len(rows)
+    metas = []
+    for d in sorted(glob.glob(os.path.join(V, 'seeded', '*'))):
+        rp = os.path.join(d, 'result.json')
+        if os.path.exists(rp):
+            metas.append(json.load(open(rp)))
+    first = sum(1 for r in metas if r.get('caught_by', 'nothing').split(' ')[0] != 'nothing' and 'missed at first' not in r.get('note', '') and 'were added when this change arrived' not in r.get('note', ''))
+    later = sum(1 for r in metas if r.get('caught_by', 'nothing').split(' ')[0] != 'nothing') - first
+    never = sum(1 for r in metas if r.get('caught_by', 'nothing').split(' ')[0] == 'nothing')
+    s13 += [f'Summary: {total} seeded changes; {first} caught by the checks as they were when the change arrived, {later} caught after the', f'check named in the note was strengthened, {never} not caught (see the note: an equivalent change on the repaired tree).', '']
     s13 += ['| seeded change | aimed at | what it does | caught by (quick tier unless noted) | note |', '|---|---|---|---|---|'] + rows
 else:
     s13.append('(no seeded change has been recorded yet)')
